@@ -32,12 +32,13 @@ type Case struct {
 var (
 	addrsV4 = []string{"10.1.1.10", "10.1.1.20", "10.1.1.30", "10.1.1.40", "10.1.2.0/24", "10.1.3.0/24", "10.2.1.10",
 		"10.2.1.20", "10.9.9.9", "192.168.0.0/16", "172.16.1.1", "10.1.1.0/24", "10.1.2.30", "10.1.2.40"}
-	addrsV6      = []string{"::a01:10a", "::a01:114", "::a01:200/120", "2001:db8::1", "2001:db8::2"}
-	policyIds    = []string{"Netspoc-v1", "Netspoc-v2", "Netspoc-t0"}
-	extGroups    = []string{"raw-g1", "ext-group", "admins"}
-	extServices  = []string{"HTTP", "my-svc"}
-	extPolicies  = []string{"default-layer3-section", "admin-policy"}
-	rawGroupIds  = []string{"Netspoc-web", "Netspoc-web-1", "Netspoc-db", "Netspoc-x"}
+	addrsV6     = []string{"::a01:10a", "::a01:114", "::a01:200/120", "2001:db8::1", "2001:db8::2"}
+	policyIds   = []string{"Netspoc-v1", "Netspoc-v2", "Netspoc-t0"}
+	extGroups   = []string{"raw-g1", "ext-group", "admins"}
+	extServices = []string{"HTTP", "my-svc"}
+	extPolicies = []string{"default-layer3-section", "admin-policy"}
+	// raw files may name policies and groups with the bare prefix (checkRaw asks for "Netspoc", not "Netspoc-")
+	rawGroupIds  = []string{"Netspoc-web", "Netspoc-web-1", "Netspoc-db", "Netspoc-x", "Netspoc_dmz", "NetspocDMZ", "Netspoc"}
 	rawRuleIds   = []string{"raw1", "raw2", "deny", "deny-1", "deny-2", "x", "x-1"}
 	scopes       = []string{"/infra/tier-0s/v1", "/infra/tier-1s/t1"}
 	svcEntriesEx = []string{`[{"resource_type":"L4PortSetServiceEntry","l4_protocol":"TCP","destination_ports":["8080"]}]`,
@@ -335,7 +336,7 @@ func genTarget(rng *RNG, opt genOpt) (v4, v6, raw *Config, expect string) {
 	if rng.Chance(35) || opt.idClash || opt.rawPolicy || opt.rawBad {
 		rp := []string{pols[rng.Intn(np)]}
 		if rng.Chance(20) {
-			rp = append(rp, "Netspoc-rawpol")
+			rp = append(rp, Pick(rng, []string{"Netspoc-rawpol", "Netspoc_extra", "NetspocX", "Netspoc"}))
 		}
 		if opt.rawPolicy {
 			// no prefix at all, or the prefix somewhere else than at the start / in another case
@@ -412,7 +413,7 @@ func (sb *storeBuilder) hasService(id string) bool {
 }
 
 func (sb *storeBuilder) freeGroupId(base string) string {
-	cands := []string{base + "-1", base + "-2", "Netspoc-g7", "Netspoc-g8", "Netspoc-g9", "Netspoc-g12"}
+	cands := []string{base + "-1", base + "-2", "Netspoc-g7", "Netspoc-g8", "Netspoc-g9", "Netspoc-g12", "Netspoc_old", "NetspocOld"}
 	Shuffle(sb.rng, cands)
 	for _, c := range cands {
 		if !sb.hasGroup(c) {
@@ -667,7 +668,7 @@ func deriveStore(rng *RNG, T *Config, opt genOpt) *Config {
 		D.Policies = append(D.Policies[:i:i], D.Policies[i+1:]...)
 	}
 	if rng.Chance(level / 3) {
-		D.Policies = append(D.Policies, Policy{Id: "Netspoc-old", Rules: []Rule{{Id: "r1", Direction: "OUT", Action: "DROP",
+		D.Policies = append(D.Policies, Policy{Id: Pick(rng, []string{"Netspoc-old", "Netspoc-old", "Netspoc_old", "NetspocOld"}), Rules: []Rule{{Id: "r1", Direction: "OUT", Action: "DROP",
 			Seq: 30, Scope: []string{scopes[0]}, IPProto: "IPV4", Service: "ANY", Src: "ANY", Dst: "ANY"}}})
 	}
 	// services
